@@ -17,3 +17,9 @@ func (s *ImmuStore) vLogIDs() []byte {
 	}
 	return ids
 }
+
+// orderedIndexers returns the map itself: the indexers are visited in map
+// iteration order, as the store has always done.
+func (s *ImmuStore) orderedIndexers(indexers map[[32]byte]*indexer) map[[32]byte]*indexer {
+	return indexers
+}
